@@ -96,10 +96,6 @@ def renderFrame : Frame → String
   | .msg off => s!"m{off}" | .eof => "eof" | .vtrunc => "vtrunc" | .vover => "vover"
   | .ueof => "ueof" | .big => "big" | .trap => "panic"
 
-/-- Data-point kinds on which the evaluator itself traps (owned by C04: `/`, `%` by an integer zero,
-`strSubstring` bounds). Used only by the recorded deviation clause `evaluator-trap-kills-task`. -/
-def evaluatorTrapKinds : List String := ["divzero", "modzero", "substr", "substrhi", "substrlo", "durzero"]
-
 def cmpFrames : List String → List String → Bool
   | [], [] => true
   | x :: xs, y :: ys =>
@@ -201,19 +197,13 @@ def judgeLine (a : Acc) (l : String) : Except Verdict Acc := do
     pure { (a.add (ks.map (fun k => if k.supported then "udfwrite.supported" else "udfwrite.skipped-field"))) with nt := true }
   | ["live", node, bad] =>
     match obs with
-    | ["X", how] =>
-      if evaluatorTrapKinds.contains bad && node != "boom" then
-        throw (.known "evaluator-trap-kills-task" s!"live {node} {bad}: process {how}")
-      else throw (.specfail "process-survives" s!"live {node} {bad}: {how}")
+    | ["X", how] => throw (.specfail (if how == "hang" then "terminates" else "process-survives") s!"live {node} {bad}: {how}")
     | [cn, te, by_] =>
       let some cn := cn.toNat? | throw (.badop l)
       let some te := te.toNat? | throw (.badop l)
       let some by_ := by_.toNat? | throw (.badop l)
       match liveSpec (node == "boom") cn 4 te by_ 5 with
-      | some r =>
-        if evaluatorTrapKinds.contains bad && node != "boom" && (r.1 == "keeps-processing-after-bad-point" || r.1 == "bad-point-does-not-kill-task") then
-          throw (.known "evaluator-trap-kills-task" s!"live {node} {bad}: {r.2}")
-        else throw (fail r)
+      | some r => throw (.specfail r.1 s!"live {node} {bad}: {r.2}")
       | none =>
         -- model: the node runner turns a panicking node into a task error (extracted shape)
         if node == "boom" then
